@@ -113,12 +113,19 @@ def find_anchor(s, m, anchor, bo, bc, where):
     return ms[0].start(), ms[0].end()
 
 
-def apply_fn_sections(s, fnsec, item_lo, item_hi, log, copies):
+def apply_fn_sections(s, fnsec, item_lo, item_hi, log, copies, skip=frozenset()):
     from rustscan import next_code_char as next_code_char_
     """apply all sub-sections of one fn; returns new text. Positions recomputed after each edit."""
     name = fnsec.arg.split()[0]
     # process sections in an order that keeps earlier anchors valid: we recompute spans each time
-    for sub in fnsec.subs:
+    subs = fnsec.subs
+    if name in skip:
+        # the function left the verifiable subset: keep its contract (assumed for callers), drop all proof text
+        subs = [x for x in fnsec.subs if x.kind == 'spec']
+        ext = Section('attr', '', fnsec.lineno, fnsec.src)
+        ext.body = ['#[verifier::external_body] // AUTO-ISOLATED: outside the verifiable subset on this tree']
+        subs = subs + [ext]
+    for sub in subs:
         m = code_mask(s)
         # item may have grown; recompute its end by matching from item_lo's brace
         st, ls, bo, bc = fn_span(s, m, name, item_lo, item_hi())
@@ -195,7 +202,7 @@ def apply_fn_sections(s, fnsec, item_lo, item_hi, log, copies):
     return s
 
 
-def inject(s, vc_files):
+def inject(s, vc_files, skip=frozenset()):
     """returns (text, info) where info has fn->props map, wrapped fn names, root text"""
     info = {'fns': {}, 'items': [], 'rewrites': []}
     root_txt = []
@@ -313,7 +320,7 @@ def inject(s, vc_files):
                     fst, fls, fbo, fbc = fn_span(s, m3, name, item_lo, item_hi())
                     k = s.index('fn ' + name, fls) + 3 + len(name)
                     s = s[:k] + '/*PROPS:%s*/' % ','.join(props) + s[k:]
-                    s = apply_fn_sections(s, sub, item_lo, item_hi, log, copies)
+                    s = apply_fn_sections(s, sub, item_lo, item_hi, log, copies, skip)
                     if copies:
                         sec = Section('module', '', top.lineno, top.src)
                         sec.owner = top
